@@ -51,7 +51,7 @@ def dispatch_and_proxy(disp, method, params, version, expect_code, log, sig_hint
     """Sends the call as raw text and through ServerProxy; checks the code"""
     from jsonrpclib import jsonrpc as J
     from jsonrpclib.config import Config
-    from vlib.loopback import DispatcherTransport
+    from vlib.loopback import DispatcherTransport, WireDispatcherTransport, FRAMINGS
 
     req = {"id": 7, "method": method, "params": params}
     if version >= 2:
@@ -70,7 +70,13 @@ def dispatch_and_proxy(disp, method, params, version, expect_code, log, sig_hint
     n_direct = len(log)
     # through the client
     ccfg = Config(version=version)
-    tr = DispatcherTransport(ccfg, disp)
+    # one call in three travels through the real Transport code (request written, reply framed as HTTP and parsed back
+    # in the transport's own block size); the choice is a pure function of the request
+    wire = sum(map(ord, repr((method, sorted(params) if isinstance(params, dict) else len(params))))) % 3 == 0
+    if wire:
+        tr = WireDispatcherTransport(ccfg, disp, framing=FRAMINGS[len(str(method)) % len(FRAMINGS)])
+    else:
+        tr = DispatcherTransport(ccfg, disp)
     proxy = J.ServerProxy("http://loopback/", transport=tr, config=ccfg, version=version)
     m = getattr(proxy, method) if method and not method.startswith("_") else None
     client = "skipped"
@@ -86,6 +92,42 @@ def dispatch_and_proxy(disp, method, params, version, expect_code, log, sig_hint
             fail("C05/client-exception", "ServerProxy raised %s (%s) instead of ProtocolError" % (type(ex).__name__, ex), req)
         if expect_code is not None and client != code:
             fail("C05/client-code", "server answered code %s but the client surfaced %r" % (code, client), req)
+        # the same call as the first entry of a batch, in front of a call that succeeds: every read of its position - by
+        # index, by iteration, the first time and again - surfaces the same code
+        import re
+        if code is not None and re.match(r"^[A-Za-z][A-Za-z0-9_]*(\.[A-Za-z][A-Za-z0-9_]*)*$", method) and \
+                not set(method.split(".")) & {"method", "params", "notify", "request"} and "verif_ok" not in method:
+            disp.register_function(lambda: "fine", "verif_ok")
+            n_before_batch = len(log)
+            mc = J.MultiCall(proxy, ccfg)
+            mm = mc
+            for seg in method.split("."):
+                mm = getattr(mm, seg)
+            mm(**params) if isinstance(params, dict) else mm(*params)
+            mc.verif_ok()
+            try:
+                results = mc()
+            except Exception as ex:
+                fail("C05/client-exception", "MultiCall raised %s (%s)" % (type(ex).__name__, ex), req)
+            for attempt, how in enumerate(("iteration", "index", "iteration", "iteration", "index")):
+                try:
+                    got = next(iter(results)) if how == "iteration" else results[0]
+                    surfaced = None
+                except J.ProtocolError as ex:
+                    a = ex.args[0] if ex.args else None
+                    surfaced = a[0] if isinstance(a, tuple) and a else "no-code"
+                except Exception as ex:
+                    fail("C05/client-exception", "reading a batch result by %s raised %s (%s) instead of ProtocolError" % (how, type(ex).__name__, ex), req)
+                if surfaced != code:
+                    fail("C05/client-code", "server answered code %s; read number %d of the batch position (by %s) surfaced %r%s" % (
+                        code, attempt + 1, how, surfaced, "" if surfaced is not None else " and returned %r" % (got,)), req)
+            if results[1] != "fine":
+                fail("C05/client-code", "the successful neighbour of a failed batch entry read as %r" % (results[1],), req)
+            # what the batch added to the invocation log: as many entries as the single call through the client did
+            if len(log) - n_before_batch != n_before_batch - n_direct:
+                fail("C05/invocations", "the call inside a batch invoked callables %d time(s), alone %d time(s)" % (
+                    len(log) - n_before_batch, n_before_batch - n_direct), req)
+            del log[n_before_batch:]
     return o, code, n_direct, client
 
 
@@ -477,6 +519,9 @@ _LINEBREAKS = "\n\r\x0b\x0c\x1c\x1d\x1e\x85  "
 messages = gen.pick(
     st.text(st.characters(blacklist_categories=("Cs",), blacklist_characters=_LINEBREAKS), max_size=20),
     st.sampled_from(["", "bad thing", "é€", "a: b", "Invalid parameters", "takes 2 positional arguments", "{0}", "%s"]),
+    # texts longer than the block a transport reads at once, in 2-, 3- and 4-byte characters at every alignment
+    st.tuples(st.integers(0, 3), st.sampled_from([500, 1000, 1020, 2040, 3070]), st.sampled_from(["é", "€", "😀"])).map(
+        lambda t: "a" * t[0] + t[2] * t[1]),
 )
 
 
